@@ -147,6 +147,7 @@ def sys_lattice():
 
 def cases(tier, rng):
     yield case_line('ts.consts')
+    yield case_line('ts.defaults')
     sl = secs_lattice()
     for s in sl:
         for n in NSECS:
